@@ -36,12 +36,15 @@ def sig_of(*parts):
 
 
 def tagged(plan, res, tag, which="ops"):
-    """result of the op carrying tag `tag` (first match)"""
-    ops = plan.get(which, [])
-    rs = res.get(which, [])
-    for i, op in enumerate(ops):
-        if op.get("tag") == tag and i < len(rs):
-            return rs[i]
+    """result of the op carrying tag `tag` (first match); a plan split into prologue (main thread), ops
+    (worker thread) and epilogue (main thread) is searched in that order"""
+    parts = (which,) if which != "ops" or not ("prologue" in plan or "epilogue" in plan) else ("prologue", "ops", "epilogue")
+    for part in parts:
+        ops = plan.get(part, [])
+        rs = res.get(part, [])
+        for i, op in enumerate(ops):
+            if op.get("tag") == tag and i < len(rs):
+                return rs[i]
     return None
 
 
